@@ -23,6 +23,8 @@ package proxy
 //@   flags safety libframe
 //@   requires @C19 p.pushForwarder != nil && ctx != nil
 //@   ensures[forwarded-exactly-once] @C19 ghost.forwards == old(ghost.forwards) + 1
+//@   ensures[status-transparent] @C19 statOK(ghost.lastPushStat) || statCode(ghost.lastPushStat) >= 200 || statCode(ghost.lastPushStat) <= 99 ==> result == ghost.lastPushStat
+//@   ensures[connection-failure-is-bad-gateway] @C19 !statOK(ghost.lastPushStat) && statCode(ghost.lastPushStat) < 200 && statCode(ghost.lastPushStat) > 99 ==> statCode(result) == erpc.CodeBadGateway && result != ghost.lastPushStat
 //@   ensures[real-ip-added-iff-absent] @C19 ghost.realIPAdds == old(ghost.realIPAdds) + (ghost.lastPeekLen == 0 ? 1 : 0)
 
 // ---- C19: the proxy is transparent --------------------------------------------------
@@ -40,10 +42,12 @@ package proxy
 //@   ghostset ghost.forwards = old(ghost.forwards) + 1
 //@   ghostset ghost.lastCmd = result
 //@   ensures[returns-a-command] result != nil
+//@ ghost global lastPushStat int
 //@ iface plugin/proxy.PushForwarder.Push
 //@   flags libframe
-//@   modifies ghost.forwards
+//@   modifies ghost.forwards, ghost.lastPushStat
 //@   ghostset ghost.forwards = old(ghost.forwards) + 1
+//@   ghostset ghost.lastPushStat = result
 //@ iface dynamic:func(*plugin/proxy.Label) plugin/proxy.CallForwarder
 //@   flags libframe
 //@   ensures result != nil
